@@ -64,9 +64,12 @@ def run(ctx):
             variants = [([], None, False), (["-v"], None, False), ([], ["sh", "-c", "cat >/dev/null"], False), ([], None, True),
                         (["-vv"], ["sh", "-c", "cat >/dev/null"], False), (["--quiet"], None, False),
                         (["-vvv"], ["sh", "-c", "cat >/dev/null"], True), (["--quiet"], ["sh", "-c", "cat >/dev/null"], False),
-                        ([], None, "pipe"), ([], ["sh", "-c", "cat >/dev/null"], "pipe")]
+                        ([], None, "pipe"), ([], ["sh", "-c", "cat >/dev/null"], "pipe"),
+                        # children that do not read: one that exits at once, one that closes its standard input and lingers (both
+                        # allowed by the --help text); samedec must go on printing
+                        ([], ["sh", "-c", "exit 0"], False), ([], ["sh", "-c", "exec 0<&-; sleep 0.2"], False)]
             if q:
-                variants = [variants[k] for k in sorted(set([0, 2, 5, 8, (i % 10), ((i * 3 + 1) % 10)]))]
+                variants = [variants[k] for k in sorted(set([0, 2, 5, 8, 10 + (i % 2), (i % 12), ((i * 3 + 1) % 12)]))]
             for extra, child, use_stdin in variants:
                 quiet = "--quiet" in extra
                 mlines, mspawns, raw = rec.model(1 if quiet else 0, 1 if child else 0)
